@@ -46,3 +46,16 @@ def match(prop, case, mm):
         if fn is not None and fn(case, mm):
             return kid
     return None
+
+
+@predicate("C08-leak-partial-clear-then-inplace")
+def _c08_leak(case, mm):
+    if mm.kind != "flag_not_restored":
+        return False
+    seen_clear = False
+    for s in case.get("stmts", []):
+        if s["k"] in ("backward", "clear"):
+            seen_clear = True
+        elif seen_clear and (s["k"] == "setitem" or (s["k"] == "op" and s.get("name") == "add_out")):
+            return True
+    return False
